@@ -843,9 +843,14 @@ static void dump_chrome_header(struct uftrace_dump_ops *ops, struct uftrace_data
 		update_perf_task_comm(handle);
 
 	pr_out("{\"traceEvents\":[\n");
+	chrome->last_comma = false;
 	for (i = 0; i < info->nr_tid; i++) {
 		tid = info->tids[i];
 		task = find_task(&handle->sessions, tid);
+
+		if (chrome->last_comma)
+			pr_out(",\n");
+		chrome->last_comma = true;
 
 		pr_out("{\"ts\":0,\"ph\":\"M\",\"pid\":%d,"
 		       "\"name\":\"process_name\","
@@ -853,11 +858,9 @@ static void dump_chrome_header(struct uftrace_dump_ops *ops, struct uftrace_data
 		       tid, tid, task->comm);
 		pr_out("{\"ts\":0,\"ph\":\"M\",\"pid\":%d,"
 		       "\"name\":\"thread_name\","
-		       "\"args\":{\"name\":\"[%d] %s\"}},\n",
+		       "\"args\":{\"name\":\"[%d] %s\"}}",
 		       tid, tid, task->comm);
 	}
-
-	chrome->last_comma = false;
 }
 
 void print_json_escaped_char(char **args, size_t *len, const char c);
